@@ -109,6 +109,18 @@ CLAIMED = {
          'Two defects repaired by fix: commits (byte index aliasing; first name record).',
     technique='Coq proof (bit-level field lemmas, allocation invariant by induction) over hand model; regenerated constants (tie A); differential correspondence with reference oracle (tie B)',
     design='6/C18'),
+ 'C15': dict(
+    text='Theorems over an exact-arithmetic model of Slot::finalise (attachment tree walk, depth cut-off, cluster minimum, flood shift) and the base loop of '
+         'Segment::positionSlots: for every attachment forest and every positive integer scale k, every slot origin, the cluster results and the segment advance '
+         'computed at scale k are exactly k times the design-unit ones (homogeneity by induction over depth), the set and order of positioned slots is scale-free, '
+         'and any two sizes are proportional.  Tie: the harness reads the design-unit inputs of finalise out of the real slots and the extracted model must reproduce '
+         'the real origins and advance digit for digit at font = NULL, 2*upem and 3*upem (where float arithmetic is exact).  Oracle on the API: font = NULL vs unhinted '
+         'fonts of arbitrary ppm in (0,4096] - identical glyph ids, attachments, associations; origins, advances, segment advance proportional within 2e-5 of the largest '
+         'coordinate; also after gr_seg_justify with proportional widths.',
+    note='partial: theorems cover integer scales (exact in floats); single-precision rounding at other sizes is only bounded differentially.  Segments whose stream was '
+         'reversed again after positioning (requested direction differs from the font\'s) and segments with fractional collision offsets are checked by the oracle only.',
+    technique='Coq proof (homogeneity of final positioning by induction over the attachment tree) over hand model + exact-scale correspondence + proportionality oracle on the API',
+    design='6/C15'),
  'C19': dict(
     text='Theorems over a list-level model of gr_slot_linebreak_before, the segment-global reverseSlots and the first/last bracket of Segment::justify: '
          '(1) any sequence of cuts and justify calls that triggers no reversal leaves every slot in place (lines are only ever split where cut); '
